@@ -344,23 +344,41 @@ theorem group_transition_absent (m : Mode) (pduLen desired a : Nat) (members : L
       obtain ⟨p, he, hw, _⟩ := write1_ok _ _ _ _ hsr
       exact hno p (by rw [he]; simp) hw
 
-/-- KNOWN GAP (as coded): the status polls of `is_state` are not checked. A status datagram that
-    came back with working counter 0 (nobody serviced it) but whose bytes say OP is accepted, so
-    `transition_to` hands out the OP typestate. Honest absent devices leave the zero payload in
-    place and are caught by the state comparison instead (`group_poll_zero_payload_rejected`). -/
-theorem group_status_poll_unchecked_counterexample :
-    Group.transitionTo .checked 100 8 [0x1000]
-      [.resp ⟨[8, 0], 1⟩, .resp ⟨[8, 0], 0⟩] = (.ok (), [], [[.fpwr 0x1000 0x120 8], [.fprd 0x1000 0x130]]) := by
-  decide
+/-- The status polls of a group transition are checked too: a transition that returns Ok ended on
+    a round in which every member's status datagram came back with working counter 1 (`Reports`
+    includes the counter). -/
+theorem group_transition_checked (m : Mode) (pduLen desired : Nat) (members : List Nat) (tr rest : List Ev)
+    (sent : List (List Group.Dg)) (hm : m = .checked ∨ Group.CHECK_SIZE ≤ pduLen)
+    (h : Group.transitionTo m pduLen desired members tr = (.ok (), rest, sent)) :
+    ∃ (pre : List Ev) (ps : List Pdu), tr = pre ++ ps.map Ev.resp ++ rest ∧ ps.length = members.length ∧
+      ∀ p ∈ ps, p.wkc = 1 := by
+  unfold Group.transitionTo at h
+  split at h
+  · simp at h
+  · rename_i t s hreq
+    simp only [Prod.mk.injEq] at h
+    obtain ⟨pre, ps, h1, h2, h3⟩ := Group.waitLoop_ok m pduLen desired members _ t rest
+      (Group.waitForState m pduLen desired members t).2.2 hm (by
+        show Group.waitForState m pduLen desired members t = _
+        rw [← h.1, ← h.2.1])
+    obtain ⟨q, hq⟩ := Group.requestAll_suffix desired members tr _ t s hreq
+    exact ⟨q ++ pre, ps, by rw [hq, h1]; simp, h2, fun p hp => (h3 p hp).1⟩
 
-/-- What protects the status polls in practice: an unanswered read keeps the zero payload the
-    MainDevice sent, zero is not a requestable state, so the round reports "not there yet" and
-    the caller ends in `Err(Timeout)` — not in a working-counter error, and only because the
-    payload happened to be zero. -/
-theorem group_poll_zero_payload_rejected (desired : Nat) (hd : desired ≠ 0) (wkc : Nat) (ps : List Pdu) :
-    Group.checkStates desired (⟨[0, 0], wkc⟩ :: ps) = .ok false := by
-  simp [Group.checkStates, unpackAlControl]
-  omega
+/-- A status poll that was not answered by exactly one device ends `is_state` with
+    `WorkingCounter { expected: 1, received }`, whatever its bytes say. -/
+theorem group_poll_mismatch_is_error (desired : Nat) (p : Pdu) (ps : List Pdu) (h : p.wkc ≠ 1) :
+    Group.checkStates desired (p :: ps) = .error (.workingCounter 1 p.wkc) := by
+  simp [Group.checkStates, Pdu.checkWkc, h]
+
+/-- The former witnesses of the gap: a status poll with a foreign counter but bytes saying OP, and a
+    member that dropped out after its AL control write (zero payload, counter 0), now both end in the
+    working-counter error. -/
+theorem group_status_poll_former_witnesses :
+    Group.transitionTo .checked 100 8 [0x1000] [.resp ⟨[8, 0], 1⟩, .resp ⟨[8, 0], 2⟩]
+      = (.error (.workingCounter 1 2), [], [[.fpwr 0x1000 0x120 8], [.fprd 0x1000 0x130]]) ∧
+    Group.transitionTo .checked 100 8 [0x1000] [.resp ⟨[8, 0], 1⟩, .resp ⟨[0, 0], 0⟩]
+      = (.error (.workingCounter 1 0), [], [[.fpwr 0x1000 0x120 8], [.fprd 0x1000 0x130]]) := by
+  decide
 
 /-! ### The exempt set, as data re-read from the sources (T1) -/
 
@@ -417,7 +435,8 @@ def reviewedReceiveWkc : List (String × String) := [
 
 /-- Code that consumes raw `ReceivedPdu`s without the builders: `single_pdu` (wrapped by the
     builders), the `tx_rx*` cycle functions (the summed counter is returned to the caller in
-    `TxRxResponse`; C07) and `is_state` — which looks at no counter at all: the known gap above. -/
+    `TxRxResponse`; C07) and `is_state`, which applies `ReceivedPdu::wkc(1)` to every status
+    datagram itself (`reviewedRawPduChecked`). -/
 def reviewedRawPdu : List (String × String) := [
   ("maindevice.rs", "single_pdu"),
   ("subdevice_group/mod.rs", "is_state"),
@@ -425,12 +444,16 @@ def reviewedRawPdu : List (String × String) := [
   ("subdevice_group/mod.rs", "tx_rx_sync_system_time"),
   ("subdevice_group/mod.rs", "tx_rx_dc")]
 
+/-- Raw consumers that check the counter of what they consume. -/
+def reviewedRawPduChecked : List (String × String) := [("subdevice_group/mod.rs", "is_state")]
+
 /-- Generated obligation: the opt-out sites found in /repo are exactly the reviewed ones. A new
     `.ignore_wkc()`, a new `.send(`, a new raw consumer or a new `receive_wkc` caller changes the
-    regenerated list and this stops checking. -/
+    regenerated list and this stops checking; so does removing the counter check from `is_state`. -/
 theorem exempt_sites :
     Gen.Wkc.ignoreWkcSites = reviewedIgnoreWkc ∧ Gen.Wkc.sendSites = reviewedSend ∧
-    Gen.Wkc.receiveWkcSites = reviewedReceiveWkc ∧ Gen.Wkc.rawPduSites = reviewedRawPdu := by
+    Gen.Wkc.receiveWkcSites = reviewedReceiveWkc ∧ Gen.Wkc.rawPduSites = reviewedRawPdu ∧
+    Gen.Wkc.rawPduSitesChecked = reviewedRawPduChecked := by
   decide
 
 /-- Generated obligation: of the builder methods that go through `common(..)`, exactly `receive`,
